@@ -9,13 +9,15 @@ digests" and "CCFLAGS/CFLAGS/LDFLAGS in the env inputs"; `Cfg.fixed`: after both
 working tree has and drives the model with it.
 `hb` stands for SHA-256 on file contents, `fp` for SHA-256 of the marshalled manifest; they are arbitrary
 functions, and every theorem that needs collision-freeness says so (`Function.Injective`).
-`compileRel` (the compiler) is an arbitrary function of the relevant inputs.
+`compileRel` (the compiler) is an arbitrary function of the relevant inputs; `storeObj` / `loadObj` are what `saveToCache` keeps
+of a compiled package and what `tryLoadFromCache` makes of it — arbitrary too, every soundness theorem says `loadObj ∘ storeObj = id`,
+and `cache_metadata_roundtrip` proves it for the transcribed metadata record (link arguments, NeedRt, NeedPyInit).
 -/
 namespace LlgoVerif.Cache
 
 section CacheSound
 variable {φ : Type} [DecidableEq φ] (cfg : Cfg) (hb : Bytes → φ) (fp : Manifest φ → φ)
-variable {Obj : Type} (compileRel : Rel → Obj)
+variable {Obj Stored : Type} (compileRel : Rel → Obj) (storeObj : Obj → Stored) (loadObj : Stored → Obj)
 
 /-- **the fingerprint covers everything that matters** — the full statement; false on the current code
     (four counterexamples below) -/
@@ -26,29 +28,30 @@ def KeyCovers : Prop :=
     then for EVERY history of edits (staying inside `S`), builds (with or without `-a`, cache on or off) and cache
     clears, starting from an empty cache: every build that ever happened returned, package by package, exactly what a
     clean build of the inputs current at that moment returns — and so does one more build appended to the history. -/
-theorem cache_sound_on (S : Inputs → Prop) (fpi : Function.Injective fp) (hk : KeyCoversOn cfg hb fp S)
+theorem cache_sound_on (S : Inputs → Prop) (fpi : Function.Injective fp) (hround : ∀ o, loadObj (storeObj o) = o)
+    (hk : KeyCoversOn cfg hb fp S)
     (p₀ : Program) (h : List Step) (hp₀ : ProgIn S p₀) (hh : ∀ st ∈ h, StepIn S st) (o : BuildOpts) :
-    served cfg hb fp compileRel p₀ (h ++ [.build o])
-        = some ((current cfg hb fp compileRel p₀ h).pkgs.map fun t => compile compileRel ((current cfg hb fp compileRel p₀ h).glob, t))
-      ∧ ∀ po ∈ (run cfg hb fp compileRel (State.init p₀) h).trace,
+    served cfg hb fp compileRel storeObj loadObj p₀ (h ++ [.build o])
+        = some ((current cfg hb fp compileRel storeObj loadObj p₀ h).pkgs.map fun t => compile compileRel ((current cfg hb fp compileRel storeObj loadObj p₀ h).glob, t))
+      ∧ ∀ po ∈ (run cfg hb fp compileRel storeObj loadObj (State.init p₀) h).trace,
           po.2 = po.1.pkgs.map fun t => compile compileRel (po.1.glob, t) := by
-  have inv0 : Inv cfg hb fp compileRel S (State.init p₀ : State φ Obj) :=
+  have inv0 : Inv cfg hb fp compileRel storeObj S (State.init p₀ : State φ Stored Obj) :=
     ⟨hp₀, fun e he => (by cases he), fun po hpo => (by cases hpo)⟩
-  have inv := run_inv cfg hb fp compileRel S fpi hk h _ hh inv0
+  have inv := run_inv cfg hb fp compileRel storeObj loadObj S fpi hround hk h _ hh inv0
   refine ⟨?_, inv.trace⟩
   unfold served current
   rw [run_append]
   simp only [run, step]
   exact congrArg some
-    (buildProg_ok cfg hb fp compileRel S fpi hk o _ _ _ inv.prog inv.cache).1
+    (buildProg_ok cfg hb fp compileRel storeObj loadObj S fpi hround hk o _ _ _ inv.prog inv.cache).1
 
 /-- **Cache soundness** (`cache_sound : KeyCovers → ∀ history, served = compile (current inputs)`), by induction over
     the history.  Its hypothesis `KeyCovers` does not hold for the transcribed key: see `cache_sound_partial`. -/
-theorem cache_sound (fpi : Function.Injective fp) (hk : KeyCovers cfg hb fp) (p₀ : Program) (h : List Step)
+theorem cache_sound (fpi : Function.Injective fp) (hround : ∀ o, loadObj (storeObj o) = o) (hk : KeyCovers cfg hb fp) (p₀ : Program) (h : List Step)
     (o : BuildOpts) :
-    served cfg hb fp compileRel p₀ (h ++ [.build o])
-      = some ((current cfg hb fp compileRel p₀ h).pkgs.map fun t => compile compileRel ((current cfg hb fp compileRel p₀ h).glob, t)) :=
-  (cache_sound_on cfg hb fp compileRel (fun _ => True) fpi (fun i₁ i₂ _ _ => hk i₁ i₂) p₀ h
+    served cfg hb fp compileRel storeObj loadObj p₀ (h ++ [.build o])
+      = some ((current cfg hb fp compileRel storeObj loadObj p₀ h).pkgs.map fun t => compile compileRel ((current cfg hb fp compileRel storeObj loadObj p₀ h).glob, t)) :=
+  (cache_sound_on cfg hb fp compileRel storeObj loadObj (fun _ => True) fpi hround (fun i₁ i₂ _ _ => hk i₁ i₂) p₀ h
     (fun _ _ => trivial) (fun st _ => by cases st <;> first | trivial | exact fun _ _ => trivial) o).1
 
 end CacheSound
@@ -99,11 +102,12 @@ theorem keyCovers_counterexample_embed : ¬ KeyCovers cfg hb fp := fun h => by
 
 /-- a stale archive is really served: after building `cxSide₁`, editing the side file and building again, the
     second build hands out the archive of the OLD side file (for every compiler that distinguishes the two) -/
-theorem stale_served_sidefile [DecidableEq φ] {Obj : Type} (compileRel : Rel → Obj)
+theorem stale_served_sidefile [DecidableEq φ] {Obj Stored : Type} (compileRel : Rel → Obj) (storeObj : Obj → Stored)
+    (loadObj : Stored → Obj) (hround : ∀ o, loadObj (storeObj o) = o)
     (hdist : compileRel (relevantOf cxSide₁) ≠ compileRel (relevantOf cxSide₂)) :
-    served cfg hb fp compileRel ⟨cxSide₁.1, [cxSide₁.2]⟩ [.build {}, .edit ⟨cxSide₂.1, [cxSide₂.2]⟩, .build {}]
+    served cfg hb fp compileRel storeObj loadObj ⟨cxSide₁.1, [cxSide₁.2]⟩ [.build {}, .edit ⟨cxSide₂.1, [cxSide₂.2]⟩, .build {}]
       ≠ some [compile compileRel cxSide₂] := by
-  rw [served_stale cfg hb fp compileRel cxSide₁.1 cxSide₂.1 cxSide₁.2 cxSide₂.2 rfl (by decide) (by decide) (by decide)]
+  rw [served_stale cfg hb fp compileRel storeObj loadObj cxSide₁.1 cxSide₂.1 cxSide₁.2 cxSide₂.2 rfl (by decide) (by decide) (by decide), hround]
   intro h
   exact hdist (List.cons.inj (Option.some.inj h)).1
 
@@ -169,29 +173,49 @@ example : mtimeChangesWithContent exIn₁ exIn₂ ∧ (noSideCFiles exIn₁ ∧ 
 
 /-- **Cache soundness for the legacy code**: over any universe `S` of units that pairwise satisfy H1–H4, every
     history of edits/builds/cache clears serves exactly the clean build. -/
-theorem cache_sound_partial [DecidableEq φ] {Obj : Type} (compileRel : Rel → Obj) (S : Inputs → Prop)
+theorem cache_sound_partial [DecidableEq φ] {Obj Stored : Type} (compileRel : Rel → Obj) (storeObj : Obj → Stored)
+    (loadObj : Stored → Obj) (hround : ∀ o, loadObj (storeObj o) = o) (S : Inputs → Prop)
     (hbi : Function.Injective hb) (fpi : Function.Injective fp) (hS : ∀ a b, S a → S b → Hyp Cfg.legacy a b)
     (p₀ : Program) (h : List Step) (hp₀ : ProgIn S p₀) (hh : ∀ st ∈ h, StepIn S st) (o : BuildOpts) :
-    served Cfg.legacy hb fp compileRel p₀ (h ++ [.build o])
-      = some ((current Cfg.legacy hb fp compileRel p₀ h).pkgs.map fun t =>
-          compile compileRel ((current Cfg.legacy hb fp compileRel p₀ h).glob, t)) :=
-  (cache_sound_on Cfg.legacy hb fp compileRel S fpi
+    served Cfg.legacy hb fp compileRel storeObj loadObj p₀ (h ++ [.build o])
+      = some ((current Cfg.legacy hb fp compileRel storeObj loadObj p₀ h).pkgs.map fun t =>
+          compile compileRel ((current Cfg.legacy hb fp compileRel storeObj loadObj p₀ h).glob, t)) :=
+  (cache_sound_on Cfg.legacy hb fp compileRel storeObj loadObj S fpi hround
     (fun i₁ i₂ s₁ s₂ hk => key_covers_of_hyp Cfg.legacy hb fp hbi fpi i₁.2 i₁.1 i₂.1 i₂.2 (hS i₁ i₂ s₁ s₂) hk)
     p₀ h hp₀ hh o).1
 
 /-- **Cache soundness for the repaired code** (`cache_sound_fixed`): as long as no package of the history uses
     `LLGoFiles` side files or `//go:embed` — a condition on each unit alone — every history of edits (same-size edits
     with restored mtimes and `CCFLAGS` changes included), builds and cache clears serves exactly the clean build. -/
-theorem cache_sound_fixed [DecidableEq φ] {Obj : Type} (compileRel : Rel → Obj) (S : Inputs → Prop)
+theorem cache_sound_fixed [DecidableEq φ] {Obj Stored : Type} (compileRel : Rel → Obj) (storeObj : Obj → Stored)
+    (loadObj : Stored → Obj) (hround : ∀ o, loadObj (storeObj o) = o) (S : Inputs → Prop)
     (hbi : Function.Injective hb) (fpi : Function.Injective fp) (hS : ∀ a, S a → noSideCFiles a ∧ noEmbed a)
     (p₀ : Program) (h : List Step) (hp₀ : ProgIn S p₀) (hh : ∀ st ∈ h, StepIn S st) (o : BuildOpts) :
-    served Cfg.fixed hb fp compileRel p₀ (h ++ [.build o])
-      = some ((current Cfg.fixed hb fp compileRel p₀ h).pkgs.map fun t =>
-          compile compileRel ((current Cfg.fixed hb fp compileRel p₀ h).glob, t)) :=
-  (cache_sound_on Cfg.fixed hb fp compileRel S fpi
+    served Cfg.fixed hb fp compileRel storeObj loadObj p₀ (h ++ [.build o])
+      = some ((current Cfg.fixed hb fp compileRel storeObj loadObj p₀ h).pkgs.map fun t =>
+          compile compileRel ((current Cfg.fixed hb fp compileRel storeObj loadObj p₀ h).glob, t)) :=
+  (cache_sound_on Cfg.fixed hb fp compileRel storeObj loadObj S fpi hround
     (fun i₁ i₂ s₁ s₂ hk => keyCovers_partial_fixed hb fp hbi fpi i₁ i₂ ⟨(hS i₁ s₁).1, (hS i₂ s₂).1⟩
       ⟨(hS i₁ s₁).2, (hS i₂ s₂).2⟩ hk)
     p₀ h hp₀ hh o).1
+
+/-- **what the cache restores besides the archive is what was stored** (`load (store m) = m` for the metadata record of
+    `saveToCache` / `tryLoadFromCache`): the link arguments with their order and multiplicity, `NeedRt`, `NeedPyInit` -/
+theorem cache_metadata_roundtrip (m : Meta) : loadMeta (storeMeta m) = m := loadMeta_storeMeta m
+
+example : loadMeta (storeMeta { linkArgs := ["-Xlinker", "--defsym=a=11", "-Xlinker", "--defsym=b=22", "-lfoo", "-lbar", "-lfoo"], needRt := true })
+    = { linkArgs := ["-Xlinker", "--defsym=a=11", "-Xlinker", "--defsym=b=22", "-lfoo", "-lbar", "-lfoo"], needRt := true } := by decide
+
+/-- **Cache soundness for the repaired code, artifacts = archive + metadata**: `cache_sound_fixed` with the transcribed
+    store/load pair plugged in (no round-trip hypothesis left): a build served from the cache links the same archives with
+    the same link arguments and the same runtime-initialisation flags as the clean build. -/
+theorem cache_sound_fixed_artifacts [DecidableEq φ] {A : Type} (compileRel : Rel → Artifact A) (S : Inputs → Prop)
+    (hbi : Function.Injective hb) (fpi : Function.Injective fp) (hS : ∀ a, S a → noSideCFiles a ∧ noEmbed a)
+    (p₀ : Program) (h : List Step) (hp₀ : ProgIn S p₀) (hh : ∀ st ∈ h, StepIn S st) (o : BuildOpts) :
+    served Cfg.fixed hb fp compileRel storeArtifact loadArtifact p₀ (h ++ [.build o])
+      = some ((current Cfg.fixed hb fp compileRel storeArtifact loadArtifact p₀ h).pkgs.map fun t =>
+          compile compileRel ((current Cfg.fixed hb fp compileRel storeArtifact loadArtifact p₀ h).glob, t)) :=
+  cache_sound_fixed hb fp compileRel storeArtifact loadArtifact loadArtifact_storeArtifact S hbi fpi hS p₀ h hp₀ hh o
 
 /-- non-vacuity of the universe hypotheses of `cache_sound_partial` / `cache_sound_on` / `cache_sound_fixed` -/
 theorem exUniverse_hyp : ∀ a b, (fun i => i = exIn₁ ∨ i = exIn₂) a → (fun i => i = exIn₁ ∨ i = exIn₂) b →
